@@ -236,7 +236,7 @@ class TimeArray(np.ndarray, TimeInterface):
 
     def __getitem__(self, key):
         # return scalar TimeArray in case key is integer
-        if isinstance(key, (int, np.int64, np.int32)):
+        if isinstance(key, (int, np.integer)):
             return self[[key]].reshape(())
         elif isinstance(key, float):
             return self.at(key)
@@ -762,7 +762,7 @@ class UniformTime(np.ndarray, TimeInterface):
 
     def __getitem__(self, key):
         # return scalar TimeArray in case key is integer
-        if isinstance(key, (int, np.int64, np.int32)):
+        if isinstance(key, (int, np.integer)):
             return self[[key]].reshape(()).view(TimeArray)
         elif isinstance(key, float) or isinstance(key, TimeInterface):
             return self.at(key)
